@@ -7,6 +7,7 @@ import (
 	"debug/elf"
 	"debug/gosym"
 	"fmt"
+	mocker "github.com/tencent/goom"
 	"os"
 	"runtime"
 	"sort"
@@ -230,6 +231,44 @@ func TestC10(t *testing.T) {
 			continue
 		}
 		vexact++
+	}
+	// the same name asked for as the other kind of symbol first (a miss), then as what it is: a miss in one table says
+	// nothing about the other
+	if mode != "pie" {
+		cross := 0
+		for i, n := range names {
+			if i%97 != 0 {
+				continue
+			}
+			if _, err := findVar(n); err == nil {
+				continue // a variable of that very name exists: nothing to learn here
+			}
+			a, err := findFunc(n)
+			rep.Eval(1)
+			cross++
+			if err != nil {
+				rep.Violate("C10/present-function-not-found", fmt.Sprintf("[%s] FindFuncByName(%q) fails after FindVarByName of the same name failed: %v", mode, n, err), map[string]interface{}{"name": n, "mode": mode})
+				break
+			}
+			if f := runtime.FuncForPC(a); f == nil || f.Entry() != a {
+				rep.Violate("C10/function-address-not-an-entry", fmt.Sprintf("[%s] FindFuncByName(%q) after a failed variable lookup = %#x", mode, n, a), nil)
+			}
+		}
+		if mode == "default" || mode == "strip-w" || mode == "external" {
+			for n, p := range vars.Addrs {
+				if _, err := findFunc(varPkg + "." + n); err == nil {
+					continue
+				}
+				a, err := findVar(varPkg + "." + n)
+				rep.Eval(1)
+				cross++
+				if err != nil || a != uintptr(p) {
+					rep.Violate("C10/present-variable-not-found", fmt.Sprintf("[%s] FindVarByName(%s) after FindFuncByName of the same name failed: %#x, %v (real address %#x)", mode, n, a, err, uintptr(p)), map[string]interface{}{"name": n, "mode": mode})
+					break
+				}
+			}
+		}
+		rep.Stat("cross_kind_lookups:"+mode, int64(cross))
 	}
 	rep.Stat("variables_exact:"+mode, int64(vexact))
 	rep.Stat("variables_error:"+mode, int64(verr))
@@ -491,4 +530,63 @@ func TestC10VarFirst(t *testing.T) {
 	rep.Stat("var_first_functions_exact:"+mode, int64(exact))
 	rep.Stat("var_first_variables_exact:"+mode, int64(vexact))
 	rep.Class(fmt.Sprintf("%s/variable-first/exact=%v/error=%v", mode, exact+vexact > 0, errs+verrs > 0))
+}
+
+// a type named exactly like the package, with a method named like a package-level function
+type c10 struct{ v int }
+
+//go:noinline
+func (c c10) tag() string { return "method" }
+
+//go:noinline
+func tag() string { return "func" }
+
+//go:noinline
+func size() int { return 1 }
+
+// TestC10Names: names given to the builder's by-name lookups are taken literally - "T.m" is the method m of T even when
+// T is called like the package, a name that only exists without its receiver is absent.
+func TestC10Names(t *testing.T) {
+	rep := vmon.NewReport("C10")
+	defer rep.Write()
+	type res struct {
+		perr interface{}
+		m, f string
+	}
+	run := func(do func(b *mocker.Builder)) (r res) {
+		b := mocker.Create()
+		func() {
+			defer func() { r.perr = recover() }()
+			do(b)
+		}()
+		r.m, r.f = c10{}.tag(), tag()
+		func() { defer func() { recover() }(); b.Reset() }()
+		return
+	}
+	r := run(func(b *mocker.Builder) {
+		b.ExportFunc("c10.tag").As(func(c c10) string { return "" }).Return("mocked")
+	})
+	rep.Eval(1)
+	rep.Class("names/type-called-like-the-package")
+	if r.perr != nil || r.m != "mocked" || r.f != "func" {
+		rep.Violate("C10/function-address-of-other-symbol", fmt.Sprintf(`ExportFunc("c10.tag") (method tag of type c10 in package c10): panic %v, c10{}.tag() = %q (want mocked), tag() = %q (want func)`, r.perr, r.m, r.f), nil)
+	}
+	r = run(func(b *mocker.Builder) {
+		b.ExportFunc("tag").As(func() string { return "" }).Return("mocked")
+	})
+	rep.Eval(1)
+	if r.perr != nil || r.m != "method" || r.f != "mocked" {
+		rep.Violate("C10/function-address-of-other-symbol", fmt.Sprintf(`ExportFunc("tag"): panic %v, c10{}.tag() = %q (want method), tag() = %q (want mocked)`, r.perr, r.m, r.f), nil)
+	}
+	r = run(func(b *mocker.Builder) {
+		b.ExportFunc("c10.size").As(func(c c10) int { return 0 }).Return(5)
+	})
+	rep.Eval(1)
+	rep.Class("names/absent-method-of-present-function-name")
+	if r.perr == nil || size() != 1 {
+		rep.Violate("C10/absent-function-resolved", fmt.Sprintf(`ExportFunc("c10.size") (no such method; a function size exists): accepted, size() = %d`, size()), nil)
+	}
+	if (c10{}).tag() != "method" || tag() != "func" {
+		rep.Violate("C10/function-address-of-other-symbol", "not original after Reset", nil)
+	}
 }
